@@ -299,6 +299,30 @@ def add_top_unsetup_lines(rng, g):
     lines.append({"k": "setup", "optional": False, "name": m, "spec": None, "flags": [], "deco": {}})
 
 
+HARNESS_FLAVOR = "Linux"
+
+
+def inactive_setup_lines(lines, flavor=HARNESS_FLAVOR):
+    """The setup / unsetup lines of a table that stand inside an `if (flavor == F) {` block (or its else branch) whose
+    condition is false for this flavor -- lines the table does not apply here.  Only the block shapes the tables of this
+    harness use: `if (flavor == F) {`, `} else {`, `}`."""
+    out, active = [], [True]
+    for l in lines:
+        if l["k"] == "raw":
+            t = l["text"].split("#")[0].strip()
+            m = re.match(r"^if\s*\(\s*flavor\s*==\s*(\S+?)\s*\)\s*{$", t)
+            if m:
+                active.append(active[-1] and m.group(1) == flavor)
+            elif re.match(r"^}\s*else\s*{$", t) and len(active) > 1:
+                cur = active.pop()
+                active.append(active[-1] and not cur)
+            elif t == "}" and len(active) > 1:
+                active.pop()
+        elif l["k"] in ("setup", "unsetup") and not active[-1]:
+            out.append(l)
+    return out
+
+
 def has_unsetup(case):
     return any(l["k"] == "unsetup" for _, _, lines in case["decl"] for l in lines)
 
